@@ -5,7 +5,7 @@ import sys
 
 import anyio
 
-from symcheck.env import drive, dump, same_json, HarnessError, install_clock
+from symcheck.env import drive, dump, same_json, HarnessError, install_clock, need
 from harness.stdio_fake import FakeProcess, STDIO, SPARAMS
 
 install_clock()
@@ -70,6 +70,9 @@ class _FakeFile:
 
 def _install(cfg):
     L.calls, L.handshakes = [], []
+    need(CONFIG, "json", "load_config")
+    need(SMGR, "send_initialize", "anyio", "asyncio", "os", "run_command")
+    need(MAIN, "send_initialize", "test_server")
     CONFIG.json = _JsonShim(cfg)
     CONFIG.open = lambda path, mode="r": _FakeFile()
     STDIO.anyio.open_process = _open_process
